@@ -68,6 +68,8 @@ struct LM {
     std::vector<uint32_t> csrc, ext;       // RTP lists (values as given to the API)
     std::vector<IExt> iext;                // ICMP / ICMPv6 extensions
     std::set<uint32_t> removed_codes;
+    int cap[16] = {-1, -1, -1, -1, -1, -1, -1, -1, -1, -1, -1, -1, -1, -1, -1, -1};   // 802.11 capability bits B0..B15 that were set (-1 = never)
+    long vend_size = 64;                   // BootP: "This sets the size of the vend field to 64, as the BootP RFC states"
     std::string get(const std::string& k, const std::string& dflt) const {
         auto it = f.find(k);
         return it == f.end() ? dflt : it->second;
@@ -257,6 +259,7 @@ struct TStep {
     std::function<void()> call;
     std::string must_throw;       // the setter documents rejecting this argument: exception type, nothing is added
     bool rate_flags = false;      // 802.11 rate octets: bit 7 ("basic rate") is chosen by libtins, compared modulo that bit
+    std::string label;            // coverage label of an alternative construction path of the argument ("" = the usual one)
 };
 
 template <class T> inline T G(Src& s) { return genv(s, Tag<T>()); }
@@ -449,10 +452,31 @@ TStep typed_dhcpv6(DHCPv6& d, Src& s) {
             DHCPv6::duid_type v;
             v.id = G<uint16_t>(s);
             v.data = s.bytes(1 + gen_len(s, 127));  // the DUID body is 1..128 octets
-            e.be16(v.id).raw(v.data);
-            if (client) TS_SET("client_id", 1, "client_id", rstr(v), ([&d, v] { d.client_id(v); }));
-            else TS_SET("server_id", 2, "server_id", rstr(v), ([&d, v] { d.server_id(v); }));
-            break;
+            // the converting constructors duid_type(duid_llt / duid_en / duid_ll) (choice drawn last): the body is read as the
+            // structured DUID of RFC 8415 11.2 (type 1: hardware type (16) time (32) link-layer address), 11.3 (type 2:
+            // enterprise number (32) identifier), 11.4 (type 3: hardware type (16) link-layer address), all big-endian;
+            // the reference option stays "type, then exactly these body octets"
+            {
+                const std::vector<uint8_t> body = v.data;
+                auto be = [&](size_t off, size_t n) { uint32_t x = 0; for (size_t k = 0; k < n; ++k) x = (x << 8) | body[off + k]; return x; };
+                unsigned via = (unsigned)s.weighted({2, 2, 2, 2});
+                if (via == 1 && body.size() >= 6) {
+                    v = DHCPv6::duid_type(DHCPv6::duid_llt((uint16_t)be(0, 2), be(2, 4), std::vector<uint8_t>(body.begin() + 6, body.end())));
+                    r.label = "duid-from-llt";
+                } else if (via == 2 && body.size() >= 4) {
+                    v = DHCPv6::duid_type(DHCPv6::duid_en(be(0, 4), std::vector<uint8_t>(body.begin() + 4, body.end())));
+                    r.label = "duid-from-en";
+                } else if (via == 3 && body.size() >= 2) {
+                    v = DHCPv6::duid_type(DHCPv6::duid_ll((uint16_t)be(0, 2), std::vector<uint8_t>(body.begin() + 2, body.end())));
+                    r.label = "duid-from-ll";
+                } else via = 0;
+                DHCPv6::duid_type ref(via ? (uint16_t)via : v.id, body);   // what the option must carry and the getter must return
+                e.be16(ref.id).raw(ref.data);
+                std::string arg = rstr(ref);
+                if (client) TS_SET("client_id", 1, "client_id", arg, ([&d, v] { d.client_id(v); }));
+                else TS_SET("server_id", 2, "server_id", arg, ([&d, v] { d.server_id(v); }));
+                break;
+            }
         }
     }
     r.data = e.b;
@@ -604,11 +628,17 @@ TStep typed_icmpv6(ICMPv6& p, Src& s) {
             ICMPv6::lladdr_type v;
             v.option_code = G<uint8_t>(s);
             v.address = GB(s, 40);
+            ICMPv6::lladdr_type a = v;   // the argument handed to the setter; v stays the reference value
+            if (s.chance(60) && v.address.size() >= 6) {   // the (option_code, hwaddress) constructor: a 6-octet address (drawn last)
+                v.address.resize(6);
+                a = ICMPv6::lladdr_type(v.option_code, ICMPv6::hwaddress_type(v.address.data()));
+                r.label = "icmpv6-lladdr-ctor";
+            }
             e.u8(v.option_code).raw(v.address).pad_to(8, 2);
             ICMPv6::lladdr_type exp = v;
             exp.address.resize(e.b.size() - 1, 0);
             std::string shown = rstr(v);
-            TS_SET("link_layer_addr", 19, "link_layer_addr", rstr(exp), ([&p, v] { p.link_layer_addr(v); }));
+            TS_SET("link_layer_addr", 19, "link_layer_addr", rstr(exp), ([&p, a] { p.link_layer_addr(a); }));
             r.shown = shown;
             break;
         }
@@ -763,7 +793,31 @@ TStep typed_dot11(Dot11ManagementFrame& p, Src& s) {
             e.le16(na);
             for (size_t i = 0; i < na; ++i) { size_t k = s.pick(2); v.add_akm_cypher(AK[k]); suite(AKW[k]); }
             e.le16(cap);
-            TS_SET("rsn_information", 48, "rsn_information", rstr(v), ([&p, v] { p.rsn_information(v); }));
+            // alternative ways to obtain the argument (choice drawn last): the serialization_type constructor applied to the
+            // REFERENCE element body, and the helper wpa2_psk() ("information for a WPA2-PSK AP": RSN version 1, CCMP as group
+            // and only pairwise suite, PSK as only AKM suite - IEEE 802.11i / WPA2-Personal; the capabilities word is not
+            // part of that definition and is taken from the object)
+            switch (s.weighted({2, 2, 2})) {
+                case 1: {
+                    std::string arg = rstr(v);
+                    RSNInformation v2(e.b);
+                    TS_SET("rsn_information", 48, "rsn_information", arg, ([&p, v2] { p.rsn_information(v2); }));
+                    r.label = "rsn-from-serialization";
+                    break;
+                }
+                case 2: {
+                    RSNInformation w = RSNInformation::wpa2_psk();
+                    e = Enc();
+                    e.le16(1); suite(4); e.le16(1); suite(4); e.le16(1); suite(2); e.le16(w.capabilities());
+                    RSNInformation ref;
+                    ref.version(1); ref.group_suite(RSNInformation::CCMP); ref.add_pairwise_cypher(RSNInformation::CCMP); ref.add_akm_cypher(RSNInformation::PSK);
+                    ref.capabilities(w.capabilities());
+                    TS_SET("rsn_information", 48, "rsn_information", rstr(ref), ([&p, w] { p.rsn_information(w); }));
+                    r.label = "rsn-wpa2-psk";
+                    break;
+                }
+                default: TS_SET("rsn_information", 48, "rsn_information", rstr(v), ([&p, v] { p.rsn_information(v); })); break;
+            }
             break;
         }
         case 2: rates("supported_rates", 1, &M::supported_rates); break;
@@ -783,14 +837,18 @@ TStep typed_dot11(Dot11ManagementFrame& p, Src& s) {
         case 9: {
             M::fh_params_set v = G<M::fh_params_set>(s);
             e.le16(v.dwell_time).u8(v.hop_set).u8(v.hop_pattern).u8(v.hop_index);
-            TS_SET("fh_parameter_set", 2, "fh_parameter_set", rstr(v), ([&p, v] { p.fh_parameter_set(v); }));
+            const std::string arg = rstr(v);
+            if (s.boolean()) { v = M::fh_params_set(v.dwell_time, v.hop_set, v.hop_pattern, v.hop_index); r.label = "dot11-struct-ctor"; }
+            TS_SET("fh_parameter_set", 2, "fh_parameter_set", arg, ([&p, v] { p.fh_parameter_set(v); }));
             break;
         }
         case 10: u8v("ds_parameter_set", 3, &M::ds_parameter_set); break;
         case 11: {
             M::cf_params_set v = G<M::cf_params_set>(s);
             e.u8(v.cfp_count).u8(v.cfp_period).le16(v.cfp_max_duration).le16(v.cfp_dur_remaining);
-            TS_SET("cf_parameter_set", 4, "cf_parameter_set", rstr(v), ([&p, v] { p.cf_parameter_set(v); }));
+            const std::string arg = rstr(v);
+            if (s.boolean()) { v = M::cf_params_set(v.cfp_count, v.cfp_period, v.cfp_max_duration, v.cfp_dur_remaining); r.label = "dot11-struct-ctor"; }
+            TS_SET("cf_parameter_set", 4, "cf_parameter_set", arg, ([&p, v] { p.cf_parameter_set(v); }));
             break;
         }
         case 12: { uint16_t v = G<uint16_t>(s); e.le16(v); TS_SET("ibss_parameter_set", 6, "ibss_parameter_set", rstr(v), [&p, v] { p.ibss_parameter_set(v); }); break; }
@@ -800,7 +858,9 @@ TStep typed_dot11(Dot11ManagementFrame& p, Src& s) {
             v.recovery_interval = G<uint8_t>(s);
             e.hw(v.dfs_owner).u8(v.recovery_interval);
             pairs(v.channel_map, 1);
-            TS_SET("ibss_dfs", 41, "ibss_dfs", rstr(v), ([&p, v] { p.ibss_dfs(v); }));
+            const std::string arg = rstr(v);
+            if (s.boolean()) { v = M::ibss_dfs_params(v.dfs_owner, v.recovery_interval, v.channel_map); r.label = "dot11-struct-ctor"; }
+            TS_SET("ibss_dfs", 41, "ibss_dfs", arg, ([&p, v] { p.ibss_dfs(v); }));
             break;
         }
         case 14: {  // Country: 3-octet string, triplets, one zero pad octet when the length would be odd
@@ -816,7 +876,9 @@ TStep typed_dot11(Dot11ManagementFrame& p, Src& s) {
                 e.u8(a).u8(b).u8(c);
             }
             e.pad_to(2);
-            TS_SET("country", 7, "country", rstr(v), ([&p, v] { p.country(v); }));
+            const std::string arg = rstr(v);
+            if (s.boolean()) { v = M::country_params(v.country, v.first_channel, v.number_channels, v.max_transmit_power); r.label = "dot11-struct-ctor"; }
+            TS_SET("country", 7, "country", arg, ([&p, v] { p.country(v); }));
             if (bad) r.must_throw = "Tins::invalid_option_value";
             break;
         }
@@ -825,20 +887,26 @@ TStep typed_dot11(Dot11ManagementFrame& p, Src& s) {
             M::fh_pattern_type v = G<M::fh_pattern_type>(s);
             if (v.random_table.size() > 251) v.random_table.resize(251);
             e.u8(v.flag).u8(v.number_of_sets).u8(v.modulus).u8(v.offset).raw(v.random_table);
-            TS_SET("fh_pattern_table", 9, "fh_pattern_table", rstr(v), ([&p, v] { p.fh_pattern_table(v); }));
+            const std::string arg = rstr(v);
+            if (s.boolean()) { v = M::fh_pattern_type(v.flag, v.number_of_sets, v.modulus, v.offset, v.random_table); r.label = "dot11-struct-ctor"; }
+            TS_SET("fh_pattern_table", 9, "fh_pattern_table", arg, ([&p, v] { p.fh_pattern_table(v); }));
             break;
         }
         case 17: u8v("power_constraint", 32, &M::power_constraint); break;
         case 18: {
             M::channel_switch_type v = G<M::channel_switch_type>(s);
             e.u8(v.switch_mode).u8(v.new_channel).u8(v.switch_count);
-            TS_SET("channel_switch", 37, "channel_switch", rstr(v), ([&p, v] { p.channel_switch(v); }));
+            const std::string arg = rstr(v);
+            if (s.boolean()) { v = M::channel_switch_type(v.switch_mode, v.new_channel, v.switch_count); r.label = "dot11-struct-ctor"; }
+            TS_SET("channel_switch", 37, "channel_switch", arg, ([&p, v] { p.channel_switch(v); }));
             break;
         }
         case 19: {
             M::quiet_type v = G<M::quiet_type>(s);
             e.u8(v.quiet_count).u8(v.quiet_period).le16(v.quiet_duration).le16(v.quiet_offset);
-            TS_SET("quiet", 40, "quiet", rstr(v), ([&p, v] { p.quiet(v); }));
+            const std::string arg = rstr(v);
+            if (s.boolean()) { v = M::quiet_type(v.quiet_count, v.quiet_period, v.quiet_duration, v.quiet_offset); r.label = "dot11-struct-ctor"; }
+            TS_SET("quiet", 40, "quiet", arg, ([&p, v] { p.quiet(v); }));
             break;
         }
         case 20: pair8("tpc_report", 35, &M::tpc_report); break;
@@ -846,7 +914,9 @@ TStep typed_dot11(Dot11ManagementFrame& p, Src& s) {
         case 22: {
             M::bss_load_type v = G<M::bss_load_type>(s);
             e.le16(v.station_count).u8(v.channel_utilization).le16(v.available_capacity);
-            TS_SET("bss_load", 11, "bss_load", rstr(v), ([&p, v] { p.bss_load(v); }));
+            const std::string arg = rstr(v);
+            if (s.boolean()) { v = M::bss_load_type(v.station_count, v.channel_utilization, v.available_capacity); r.label = "dot11-struct-ctor"; }
+            TS_SET("bss_load", 11, "bss_load", arg, ([&p, v] { p.bss_load(v); }));
             break;
         }
         case 23: {  // TIM: DTIM count, period, bitmap control, partial virtual bitmap of 1..251 octets
@@ -854,7 +924,9 @@ TStep typed_dot11(Dot11ManagementFrame& p, Src& s) {
             v.dtim_count = G<uint8_t>(s); v.dtim_period = G<uint8_t>(s); v.bitmap_control = G<uint8_t>(s);
             v.partial_virtual_bitmap = s.bytes(1 + gen_len(s, 250));
             e.u8(v.dtim_count).u8(v.dtim_period).u8(v.bitmap_control).raw(v.partial_virtual_bitmap);
-            TS_SET("tim", 5, "tim", rstr(v), ([&p, v] { p.tim(v); }));
+            const std::string arg = rstr(v);
+            if (s.boolean()) { v = M::tim_type(v.dtim_count, v.dtim_period, v.bitmap_control, v.partial_virtual_bitmap); r.label = "dot11-struct-ctor"; }
+            TS_SET("tim", 5, "tim", arg, ([&p, v] { p.tim(v); }));
             break;
         }
         case 24: { std::string v = GS(s, 253); e.str(v); TS_SET("challenge_text", 16, "challenge_text", rstr(v), ([&p, v] { p.challenge_text(v); })); break; }
@@ -1016,6 +1088,7 @@ long model_header_size(const LM& m, const PDU& p) {
     if (c == "ARP") return 28;
     if (c == "PPPoE") return 6 + (long)opts_wire_size(m);
     if (c == "DHCP") return 236 + 4 + (long)opts_wire_size(m);  // BOOTP fixed part + magic cookie + options
+    if (c == "BootP") return 236 + m.vend_size;                 // RFC 951: 236 octets before the vendor area
     if (c == "DHCPv6") { long t = num("msg_type", 0); return ((t == 12 || t == 13) ? 34 : 4) + (long)opts_wire_size(m); }
     if (c == "ICMP") { long t = num("type", 8); return 8 + ((t == 13 || t == 14) ? 12 : (t == 17 || t == 18) ? 4 : 0); }
     if (c == "RTP") return 12 + 4 * (long)m.csrc.size() + (num("extension_bit", 0) ? 4 + 4 * (long)m.ext.size() : 0);
@@ -1264,9 +1337,35 @@ struct Prog {
                 VCHECK(ctx, got == exp, "C04:" + m.cls + ":search" + tail, "search(" << c << ") = " << got << " model (first match) = " << exp << " | " << ctxt);
             }
         }
+        if (const FieldView* cf = v.find("capabilities")) {
+            // cap{b0 b1 ... b15}: every bit that was set through capabilities().<flag>(bool) reads back as last set
+            for (unsigned b = 0; b < 16; ++b) {
+                if (m.cap[b] < 0 || cf->value.size() != 21) continue;
+                VCHECK(ctx, cf->value[4 + b] == (m.cap[b] ? '1' : '0'), "C04:" + m.cls + ":getter:capabilities" + tail,
+                       "capabilities() = " << cf->value << " but B" << b << " was last set to " << m.cap[b] << " | " << ctxt);
+            }
+        }
+        if (m.cls == "Dot1Q" && m.get("append_padding", "1") == "0") {
+            // dot1q.h: the flag says "whether padding will be appended at the end of this packet"
+            const FieldView* tf = v.find("trailer_size");
+            VCHECK(ctx, tf && tf->value == "0", "C04:Dot1Q:trailer-with-padding-disabled" + tail, "trailer_size() = " << (tf ? tf->value : "?") << " | " << ctxt);
+        }
         if (m.cls == "RTP") {
             RTP& r = const_cast<RTP&>(static_cast<const RTP&>(p));
             for (uint32_t x : m.csrc) VCHECK(ctx, r.search_csrc_id(x), "C04:RTP:search_csrc_id" + tail, x << " | " << ctxt);
+            // "true if ... found, false otherwise": a value that is not in the list, and the extension words (held only while X = 1)
+            {
+                uint32_t absent = 0x5a5a5a5au;
+                while (std::find(m.csrc.begin(), m.csrc.end(), absent) != m.csrc.end()) ++absent;
+                VCHECK(ctx, !r.search_csrc_id(absent), "C04:RTP:search_csrc_id-absent" + tail, absent << " | " << ctxt);
+                const bool xbit = m.get("extension_bit", "0") != "0";
+                if (m.f.count("extension_data")) {
+                    if (xbit) for (uint32_t x : m.ext) VCHECK(ctx, r.search_extension_data(x), "C04:RTP:search_extension_data" + tail, x << " | " << ctxt);
+                    absent = 0xa5a5a5a5u;
+                    while (std::find(m.ext.begin(), m.ext.end(), absent) != m.ext.end()) ++absent;
+                    VCHECK(ctx, !r.search_extension_data(absent), "C04:RTP:search_extension_data-absent" + tail, absent << " | " << ctxt);
+                }
+            }
         }
         // the generic decoders option.to<T>() against reference conversions of the option's bytes
         if (m.oc != OC_NONE && kind != "set") {
@@ -1361,7 +1460,7 @@ struct Prog {
             case OC_PPPOE: t = typed_pppoe(static_cast<PPPoE&>(p), st); break;
             default: raw_add(i, st, false); return;  // IPv6 has no typed extension header setters
         }
-        std::string line = "L" + std::to_string(i) + " " + m.cls + "::" + t.name + "(" + t.shown + ")";
+        std::string line = "L" + std::to_string(i) + " " + m.cls + "::" + t.name + "(" + t.shown + ")" + (t.label.empty() ? "" : " [" + t.label + "]");
         if (t.must_throw.empty() && !fits(m, t.code, t.data.size())) {
             ctx.excluded("option-beyond-format-capacity");
             return;
@@ -1396,6 +1495,7 @@ struct Prog {
         ++typed_opts;
         count_opt(o);
         ctx.label("typed:" + m.cls);
+        if (!t.label.empty()) ctx.label(t.label);
         check_layer(i, "typed", t.name, t.code);
     }
     uint32_t pick_code(const LM& m, Src& st) {
@@ -1544,16 +1644,215 @@ struct Prog {
                 x.payload[x.payload.size() - 1] = (uint8_t)(w >> 8);
                 ctx.label("icmp-extension-sum-near-carry");
             }
-            ICMPExtension ext(x.cls, x.type);
-            ext.payload(x.payload);
-            if (m.cls == "ICMP") static_cast<ICMP&>(p).extensions().add_extension(ext);
-            else static_cast<ICMPv6&>(p).extensions().add_extension(ext);
+            ICMPExtensionsStructure& exts = m.cls == "ICMP" ? static_cast<ICMP&>(p).extensions() : static_cast<ICMPv6&>(p).extensions();
+            // how the object is built (choice drawn last): 0 = ICMPExtension(class, type) + payload(); 1 = default constructor + the
+            // three setters; 2 = add_extension(MPLS&): RFC 4950 section 3 MPLS Label Stack object = Class-Num 1, C-Type 1, payload =
+            // the label stack entries (RFC 3032 2.1: label (20) exp (3) S (1) TTL (8) per 32-bit word, S set in the last entry only)
+            unsigned via = (unsigned)st.weighted({3, 1, 2});
+            if (via == 2 && x.payload.empty()) via = 0;
+            std::string how;
+            if (via == 2) {
+                const size_t n = x.payload.size() / 4;
+                std::unique_ptr<MPLS> top;
+                MPLS* last = nullptr;
+                unsigned first_label = 0, first_exp = 0, first_ttl = 0;
+                for (size_t k = 0; k < n; ++k) {
+                    uint8_t* w = &x.payload[4 * k];
+                    unsigned label = ((unsigned)w[0] << 12) | ((unsigned)w[1] << 4) | (w[2] >> 4), exp = (w[2] >> 1) & 7, ttl = w[3];
+                    w[2] = (uint8_t)((w[2] & 0xfe) | (k + 1 == n ? 1 : 0));   // the stack the object must carry: S in the last entry only
+                    MPLS* e = new MPLS();
+                    e->label((small_uint<20>)label);
+                    e->experimental((small_uint<3>)exp);
+                    e->ttl((uint8_t)ttl);
+                    e->bottom_of_stack(k + 1 == n ? 1 : 0);
+                    if (!top) { top.reset(e); first_label = label; first_exp = exp; first_ttl = ttl; } else last->inner_pdu(e);
+                    last = e;
+                }
+                x.cls = 1;
+                x.type = 1;
+                exts.add_extension(*top);
+                how = " [from an MPLS stack of " + std::to_string(n) + "]";
+                ctx.label("icmp-extension-from-mpls");
+                // and back: MPLS(const ICMPExtension&) "will use the extension's payload to build this packet"
+                VCHECK(ctx, !exts.extensions().empty(), "C04:" + m.cls + ":add_extension(MPLS):not-added", program());
+                if (!exts.extensions().empty()) {
+                    const ICMPExtension& added = exts.extensions().back();
+                    VCHECK(ctx, added.extension_class() == 1 && added.extension_type() == 1, "C04:" + m.cls + ":add_extension(MPLS):class-type",
+                           "class " << (int)added.extension_class() << " c-type " << (int)added.extension_type() << ", RFC 4950 assigns 1 / 1 | " << program());
+                    MPLS back(added);
+                    VCHECK(ctx, (unsigned)back.label() == first_label && (unsigned)back.experimental() == first_exp && back.ttl() == first_ttl &&
+                                    (unsigned)back.bottom_of_stack() == (n == 1 ? 1u : 0u),
+                           "C04:MPLS:from-icmp-extension", "MPLS(extension) = label " << (unsigned)back.label() << " exp " << (unsigned)back.experimental() << " S " << (unsigned)back.bottom_of_stack()
+                               << " ttl " << (unsigned)back.ttl() << ", the first entry was label " << first_label << " exp " << first_exp << " ttl " << first_ttl << " | " << program());
+                }
+            } else {
+                ICMPExtension ext = via == 1 ? ICMPExtension() : ICMPExtension(x.cls, x.type);
+                if (via == 1) {
+                    ext.extension_class(x.cls);
+                    ext.extension_type(x.type);
+                    how = " [default constructor + setters]";
+                    ctx.label("icmp-extension-by-setters");
+                }
+                ext.payload(x.payload);
+                // RFC 4884 7.1 object header: Length (16, including the header), Class-Num, C-Type; then the payload
+                Enc ob;
+                ob.be16(4 + x.payload.size()).u8(x.cls).u8(x.type).raw(x.payload);
+                ICMPExtension::serialization_type got = ext.serialize();
+                VCHECK(ctx, ext.extension_class() == x.cls && ext.extension_type() == x.type && ext.payload() == x.payload && ext.size() == ob.b.size(),
+                       "C04:ICMPExtension:getter", "class/type/payload/size after construction | " << program());
+                VCHECK(ctx, got == ob.b, "C04:ICMPExtension:serialize", "serialize() = " << hexs(got) << " reference " << hexs(ob.b) << " | " << program());
+                exts.add_extension(ext);
+            }
             m.iext.push_back(x);
             m.f["extensions"] = ext_text(m.iext);
             m.f["has_extensions"] = "1";
-            text.push_back(L + m.cls + "::extensions().add_extension(" + std::to_string(x.cls) + "," + std::to_string(x.type) + "," + hexs(x.payload) + ")");
+            text.push_back(L + m.cls + "::extensions().add_extension(" + std::to_string(x.cls) + "," + std::to_string(x.type) + "," + hexs(x.payload) + ")" + how);
             ctx.label("icmp-extension");
             check_layer(i, "icmp-extension", "");
+            {
+                // the structure on its own: RFC 4884 7: Version (4) = 2, Reserved (12) = 0, Checksum (16) = one's complement of the one's
+                // complement sum of the structure with the checksum field zero; then the objects in order
+                Enc st0;
+                st0.be16(0x2000).be16(0);
+                for (const IExt& o : m.iext) st0.be16(4 + o.payload.size()).u8(o.cls).u8(o.type).raw(o.payload);
+                uint32_t sum = 0;
+                for (size_t k = 0; k + 1 < st0.b.size(); k += 2) sum += ((uint32_t)st0.b[k] << 8) | st0.b[k + 1];
+                while (sum >> 16) sum = (sum & 0xffff) + (sum >> 16);
+                uint16_t ck = (uint16_t)~sum;
+                st0.b[2] = (uint8_t)(ck >> 8);
+                st0.b[3] = (uint8_t)ck;
+                ICMPExtensionsStructure::serialization_type got = exts.serialize();
+                VCHECK(ctx, exts.size() == st0.b.size(), "C04:ICMPExtensionsStructure:size", exts.size() << " vs " << st0.b.size() << " | " << program());
+                VCHECK(ctx, got == st0.b, "C04:ICMPExtensionsStructure:serialize", "serialize() = " << hexs(got) << " reference " << hexs(st0.b) << " | " << program());
+                const ICMPExtensionsStructure& cex = exts;
+                VCHECK(ctx, cex.checksum() == ck, "C04:ICMPExtensionsStructure:checksum", "checksum() = " << cex.checksum() << " reference " << ck << " | " << program());
+                VCHECK(ctx, ICMPExtensionsStructure::validate_extensions(st0.b.data(), (uint32_t)st0.b.size()), "C04:ICMPExtensionsStructure:validate-reference",
+                       "the reference structure " << hexs(st0.b) << " does not validate | " << program());
+                ctx.label("icmp-extension-structure-serialized");
+            }
+        }
+    }
+    // ---- building API that is neither a one-argument table setter nor an option: capability bits, ICMP composite helpers,
+    //      RTP padding, BootP vend, Dot1Q::append_padding, IP::frag_off
+    static int extra_weight(const std::string& c) {
+        if (c == "Dot11Beacon" || c == "Dot11ProbeResponse" || c == "Dot11AssocRequest" || c == "Dot11AssocResponse" || c == "Dot11ReAssocRequest" ||
+            c == "Dot11ReAssocResponse" || c == "ICMP" || c == "RTP" || c == "BootP" || c == "Dot1Q")
+            return 4;
+        if (c == "IP") return 1;
+        return 0;
+    }
+    template <class T> void cap_set(PDU& p, unsigned bit, bool v) {
+        Dot11ManagementFrame::capability_information& c = static_cast<T&>(p).capabilities();
+        switch (bit) {   // IEEE 802.11-2012 8.4.1.4 figure 8-38, B0 .. B15
+            case 0: c.ess(v); break; case 1: c.ibss(v); break; case 2: c.cf_poll(v); break; case 3: c.cf_poll_req(v); break;
+            case 4: c.privacy(v); break; case 5: c.short_preamble(v); break; case 6: c.pbcc(v); break; case 7: c.channel_agility(v); break;
+            case 8: c.spectrum_mgmt(v); break; case 9: c.qos(v); break; case 10: c.sst(v); break; case 11: c.apsd(v); break;
+            case 12: c.radio_measurement(v); break; case 13: c.dsss_ofdm(v); break; case 14: c.delayed_block_ack(v); break;
+            default: c.immediate_block_ack(v); break;
+        }
+    }
+    void extra_step(size_t i, Src& st) {
+        PDU& p = *layers[i];
+        LM& m = model[i];
+        const std::string L = "L" + std::to_string(i) + " " + m.cls + "::";
+        static const char* CAPN[] = {"ess", "ibss", "cf_poll", "cf_poll_req", "privacy", "short_preamble", "pbcc", "channel_agility", "spectrum_mgmt", "qos",
+                                     "sst", "apsd", "radio_measurement", "dsss_ofdm", "delayed_block_ack", "immediate_block_ack"};
+        if (m.cls.compare(0, 5, "Dot11") == 0) {
+            unsigned bit = (unsigned)st.pick(16);
+            bool v = st.boolean();
+            if (m.cls == "Dot11Beacon") cap_set<Dot11Beacon>(p, bit, v);
+            else if (m.cls == "Dot11ProbeResponse") cap_set<Dot11ProbeResponse>(p, bit, v);
+            else if (m.cls == "Dot11AssocRequest") cap_set<Dot11AssocRequest>(p, bit, v);
+            else if (m.cls == "Dot11AssocResponse") cap_set<Dot11AssocResponse>(p, bit, v);
+            else if (m.cls == "Dot11ReAssocRequest") cap_set<Dot11ReAssocRequest>(p, bit, v);
+            else cap_set<Dot11ReAssocResponse>(p, bit, v);
+            m.cap[bit] = v ? 1 : 0;
+            text.push_back(L + "capabilities()." + CAPN[bit] + "(" + (v ? "1" : "0") + ")");
+            ctx.label("extra:capability-bit");
+            check_layer(i, "set", m.cls + ".capabilities." + CAPN[bit]);
+        } else if (m.cls == "ICMP") {
+            // include/tins/icmp.h: each helper sets the message type (RFC 792 numbers) and the fields named by its parameters
+            ICMP& c = static_cast<ICMP&>(p);
+            unsigned op = (unsigned)st.pick(9);
+            uint16_t id = (uint16_t)st.edgy(16), seq = (uint16_t)st.edgy(16);
+            uint8_t code = (uint8_t)st.edgy(8), octet = (uint8_t)st.edgy(8);
+            bool flag = st.boolean();
+            IPv4Address gw = G<IPv4Address>(st);
+            auto set = [&](const char* g, const std::string& val) { m.f[g] = val; forget_aliases(m, g); };
+            std::string call;
+            auto echo_like = [&](const char* nm, int type) {
+                set("type", std::to_string(type)); set("id", rstr(id)); set("sequence", rstr(seq));
+                m.f.erase("code");   // RFC 792 fixes code 0 for these messages, the documentation names id and seq only: no claim
+                call = std::string(nm) + "(" + rstr(id) + "," + rstr(seq) + ")";
+            };
+            switch (op) {
+                case 0: c.set_echo_request(id, seq); echo_like("set_echo_request", 8); break;
+                case 1: c.set_echo_reply(id, seq); echo_like("set_echo_reply", 0); break;
+                case 2: c.set_info_request(id, seq); echo_like("set_info_request", 15); break;
+                case 3: c.set_info_reply(id, seq); echo_like("set_info_reply", 16); break;
+                case 4: c.set_dest_unreachable(); set("type", "3"); call = "set_dest_unreachable()"; break;
+                case 5: c.set_time_exceeded(flag); set("type", "11"); set("code", flag ? "0" : "1"); call = std::string("set_time_exceeded(") + (flag ? "1" : "0") + ")"; break;
+                case 6:
+                    c.set_param_problem(flag, octet); set("type", "12");
+                    if (flag) { set("code", "0"); set("pointer", rstr(octet)); } else m.f.erase("code");   // without a pointer: any code but 0 (C15 checks that)
+                    call = std::string("set_param_problem(") + (flag ? "1" : "0") + "," + rstr(octet) + ")";
+                    break;
+                case 7: c.set_source_quench(); set("type", "4"); call = "set_source_quench()"; break;
+                default: c.set_redirect(code, gw); set("type", "5"); set("code", rstr(code)); set("gateway", rstr(gw)); call = "set_redirect(" + rstr(code) + "," + rstr(gw) + ")"; break;
+            }
+            text.push_back(L + call);
+            ctx.label("extra:icmp-helper");
+            check_layer(i, "set", "ICMP." + call.substr(0, call.find('(')));
+        } else if (m.cls == "RTP") {
+            // RFC 3550 5.1: padding octets are a trailer whose last octet counts them; the P bit says whether there are any
+            uint8_t n = st.chance(25) ? 0 : (uint8_t)st.edgy(8);
+            static_cast<RTP&>(p).padding_size(n);
+            m.f["padding_size"] = rstr(n);
+            text.push_back(L + "padding_size(" + rstr(n) + ")");
+            ctx.label("extra:rtp-padding");
+            check_layer(i, "set", "RTP.padding_size");
+            const RTP& r = static_cast<const RTP&>(p);
+            VCHECK(ctx, (unsigned)r.padding_bit() == (n ? 1u : 0u) && r.trailer_size() == n, "C04:RTP:padding-bit-or-trailer:set:RTP.padding_size",
+                   "padding_bit() = " << (unsigned)r.padding_bit() << " trailer_size() = " << r.trailer_size() << " | " << program());
+        } else if (m.cls == "BootP") {
+            // RFC 951: the vendor area is 64 octets; the setter takes any vector (getter, header_size and the octets behind the fixed
+            // part follow it), a parser of the wire reads 64 octets: sizes other than 64 are exercised on a copy, not sent through the wire
+            BootP& b = static_cast<BootP&>(p);
+            std::vector<uint8_t> v64 = st.bytes(64);
+            std::vector<uint8_t> odd = st.bytes((size_t)st.range(0, 96));
+            {
+                std::unique_ptr<BootP> c(b.clone());
+                c->vend(odd);
+                PDU::serialization_type y = c->serialize();
+                const BootP& cc = *c;
+                VCHECK(ctx, cc.vend() == odd && c->header_size() == 236 + odd.size() && y.size() == 236 + odd.size() && std::equal(odd.begin(), odd.end(), y.begin() + 236),
+                       "C04:BootP:vend-of-other-size", "vend(" << odd.size() << " octets): header_size " << c->header_size() << " serialised " << y.size() << " | " << program());
+            }
+            b.vend(v64);
+            m.f["vend"] = rstr(v64);
+            m.vend_size = 64;
+            text.push_back(L + "vend(" + hexs(v64) + ")");
+            ctx.label("extra:bootp-vend");
+            check_layer(i, "set", "BootP.vend");
+        } else if (m.cls == "Dot1Q") {
+            bool v = st.boolean();
+            static_cast<Dot1Q&>(p).append_padding(v);
+            m.f["append_padding"] = rstr(v);
+            text.push_back(L + "append_padding(" + rstr(v) + ")");
+            ctx.label("extra:dot1q-append-padding");
+            check_layer(i, "set", "Dot1Q.append_padding");
+        } else if (m.cls == "IP") {
+            // deprecated 16-bit spelling of RFC 791 Flags (3) + Fragment Offset (13)
+            uint16_t v = (uint16_t)st.edgy(16);
+            static_cast<IP&>(p).frag_off(v);
+            m.f["flags"] = std::to_string(v >> 13);
+            m.f["fragment_offset"] = std::to_string(v & 0x1fff);
+            text.push_back(L + "frag_off(" + std::to_string(v) + ")");
+            ctx.label("extra:ip-frag-off");
+            check_layer(i, "set", "IP.frag_off");
+            VCHECK(ctx, static_cast<const IP&>(p).frag_off() == v, "C04:IP:getter:frag_off:set:IP.frag_off", "frag_off() = " << static_cast<const IP&>(p).frag_off() << " | " << program());
+            // ip.h: is_fragmented = more-fragments flag set or offset != 0
+            VCHECK(ctx, static_cast<const IP&>(p).is_fragmented() == ((v & 0x3fff) != 0), "C04:IP:getter:is_fragmented:set:IP.frag_off", program());
         }
     }
     void clone_step() {
@@ -1699,7 +1998,17 @@ struct Prog {
         for (unsigned k = 0; k < steps; ++k) {
             Src st = s.sub();
             size_t i = st.pick(layers.size());
-            unsigned kind = (unsigned)st.weighted({5, 8, 5, 7, 3, 1, 3, 2});
+            // the kind byte: value % 34 walks the weights {5, 8, 5, 7, 3, 1, 3, 2} exactly as Src::weighted does; the 18 values 238..255,
+            // which the modulo folds onto kinds 0..2, select an "extra" step when the stack has a layer with such API
+            static const unsigned KW[] = {5, 8, 5, 7, 3, 1, 3, 2};
+            const uint8_t kb = st.u8();
+            unsigned kind = 0;
+            for (unsigned v = kb % 34u; v >= KW[kind]; ++kind) v -= KW[kind];
+            if (kb >= 238) {
+                std::vector<size_t> w;
+                for (size_t l = 0; l < model.size(); ++l) w.insert(w.end(), (size_t)extra_weight(model[l].cls), l);
+                if (!w.empty()) { extra_step(w[st.pick(w.size())], st); continue; }
+            }
             if (!listl.empty() && st.chance(45)) kind = 7;
             if (kind >= 1 && kind <= 4) {
                 if (optl.empty()) kind = 0;
